@@ -77,6 +77,10 @@ fn focus_knobs(focus: &str) -> WorldKnobs {
                 c.w_transient = 6;
                 c.w_selfdestruct = 4;
                 c.w_create = 6;
+                // CALLCODE may carry value inside a static frame (it pays the frame's own
+                // account): make that combination common
+                c.w_callcode = 3;
+                c.w_value = c.w_value.max(30);
             };
         }
         "C11" => {
